@@ -363,6 +363,8 @@ def rest_accepts(toks, v):
     parts = v.split("/")
     if v == "" or "" in parts or not value_matches(toks, v):
         return False
+    if any(ch not in REST_ALPHA + "/ABCXYZ" for ch in v) or "." in parts or ".." in parts:
+        return False        # keep URL parsing/normalisation of the loopback hop (C04's subject) out of this check
     return not (toks[-1] == ["dstar"] and len(parts) < len(toks))
 
 # ------------------------------------------------------------------ method specs
@@ -799,6 +801,38 @@ def run_payload(ctx, r, payload, label):
     elif "http" in payload:
         pass
 
+# ------------------------------------------------------------------ points the hypotheses exclude (informational)
+
+
+def probe_excluded(ctx):
+    """inputs OUTSIDE the property's quantifier, run on the real code; recorded in the evidence, never reported"""
+    out = []
+
+    def rec(what, fn):
+        try:
+            out.append({"point": what, "observed": fn()})
+        except Exception as e:  # noqa
+            out.append({"point": what, "observed": f"raised {type(e).__name__}: {str(e)[:120]}"})
+    rec("value with a newline, template {k=**}",
+        lambda: repr(real_param("f", "{k=**}").to_regex().match("a\nb")))
+    rec("template `{k}` (no `=`): to_regex / sample_request",
+        lambda: [real_param("f", "{k}").to_regex().pattern, real_param("f", "{k}").sample_request])
+    rec("template without a named segment `projects/*`: key, and what the emitted `.group(key)` would do",
+        lambda: [real_param("f", "projects/*").key, _group_or_error(real_param("f", "projects/*").to_regex(), "projects/p", "f")])
+    rec("literal with a regex metacharacter `v1.0/{k=*}` on `v1x0/abc`",
+        lambda: repr(real_param("f", "v1.0/{k=*}").to_regex().match("v1x0/abc")))
+    rec("`**` before the last segment `{k=a/**}/b` on `a/x/b`",
+        lambda: real_param("f", "{k=a/**}/b").to_regex().match("a/x/b").group("k"))
+    ctx.notes["excluded_points_outside_quantifier"] = out
+
+
+def _group_or_error(rx, v, key):
+    m = rx.match(v)
+    try:
+        return m.group(key)
+    except Exception as e:  # noqa
+        return f"raised {type(e).__name__}: {e}"
+
 # ------------------------------------------------------------------ entry points
 
 
@@ -821,13 +855,14 @@ def run(ctx):
     for name, payload in corpus_entries():
         run_payload(ctx, ctx.rng("corpus", name), payload, "corpus:" + name)
         ctx.count("stream", "corpus")
+    probe_excluded(ctx)
     # ---- function level
-    check_templates(ctx, r, ctx.n(150, 1500), ctx.n(10, 24), extra=FIXED_TEMPLATES)
+    check_templates(ctx, r, ctx.n(150, 2500), ctx.n(10, 24), extra=FIXED_TEMPLATES)
     check_many_named(ctx, r, ctx.n(10, 60))
     check_encode(ctx, r, ctx.n(200, 3000))
     check_field_headers(ctx, r, ctx.n(60, 600))
     # ---- T3
-    for a in range(ctx.n(5, 110)):
+    for a in range(ctx.n(5, 220)):
         specs = [gen_spec(r, i) for i in range(8)]
         specs[0] = gen_spec(r, 0, "explicit")
         specs[1] = gen_spec(r, 1, "implicit")
